@@ -23,9 +23,85 @@ LEVEL = "exploration"
 DFLAGS = ["--no-error-summary", "--hide-error-context", "--no-color-output", "--show-column-numbers", "--show-traceback"]
 
 
+# ---- import-following histories: only the root file is passed; everything else is found through imports
+
+def follow_render(st) -> dict:
+    files = {}
+    for m, mm in st["mods"].items():
+        lines = ["import %s" % d for d in mm["imports"]]
+        lines += ["def f() -> %s:" % mm["ret"], "    return %s" % ("1" if mm["ret"] == "int" else "'s'")]
+        lines += ["x_%s: int = %s.f()" % (d, d) for d in mm["imports"]]
+        files[m + ".py"] = "\n".join(lines) + "\n"
+    return files
+
+
+def follow_apply(st, op) -> bool:
+    for e in op["edits"]:
+        if e[0] == "flip" and e[1] in st["mods"]:
+            mm = st["mods"][e[1]]
+            mm["ret"] = "str" if mm["ret"] == "int" else "int"
+        elif e[0] == "grow" and e[1] in st["mods"]:
+            parent = e[1]
+            for name, ret in e[2]:
+                st["mods"][name] = {"imports": [], "ret": ret}
+                st["mods"][parent]["imports"].append(name)
+                parent = name
+        elif e[0] == "drop" and e[1] in st["mods"] and e[2] in st["mods"][e[1]]["imports"]:
+            st["mods"][e[1]]["imports"].remove(e[2])
+            # modules no longer reachable from the root leave the project (their files are deleted)
+            seen, todo = set(), ["r"]
+            while todo:
+                x = todo.pop()
+                if x not in seen:
+                    seen.add(x)
+                    todo += st["mods"][x]["imports"]
+            for x in sorted(st["mods"]):
+                if x not in seen:
+                    del st["mods"][x]
+    return True
+
+
+def follow_history(seed: int, nsteps: int):
+    """Root `r` plus modules reached only through imports. Each step is a BATCH of edits applied before one check: return
+    types flip (the importer's `x: int = dep.f()` becomes right/wrong), chains of 1-3 NEW modules are hung below an existing
+    module (each new module imports the next), import edges are dropped (unreachable modules are deleted)."""
+    import random
+
+    rnd = random.Random(seed ^ 0xF0110)
+    st0 = {"follow": True, "counter": 0, "mods": {"r": {"imports": [], "ret": "int"}}}
+    def grow(st, parent):
+        k = rnd.choice([1, 2, 2, 3, 3])
+        new = []
+        for _ in range(k):
+            st["counter"] += 1
+            new.append(("n%d" % st["counter"], rnd.choice(["int", "int", "str"])))
+        return ["grow", parent, new]
+    e0 = grow(st0, "r")
+    follow_apply(st0, {"edits": [e0]})
+    st = copy.deepcopy(st0)
+    ops = []
+    for _ in range(nsteps):
+        edits = []
+        for _ in range(rnd.choice([1, 2, 2, 3])):
+            names = sorted(st["mods"])
+            kind = rnd.choice(["flip", "flip", "grow", "grow", "drop"])
+            if kind == "flip":
+                e = ["flip", rnd.choice(names)]
+            elif kind == "grow" or len(names) < 3:
+                e = grow(st, rnd.choice(names))
+            else:
+                cands = [(m, d) for m in names for d in st["mods"][m]["imports"]]
+                e = ["drop"] + list(rnd.choice(cands))
+            follow_apply(st, {"edits": [e]})
+            edits.append(e)
+        ops.append({"op": "follow_batch", "mod": "r", "edits": edits})
+    return st0, ops
+
+
 def eval_history(arg):
     seed, nmods, nsteps, profile = arg[:4]
     pre = arg[4] if len(arg) > 4 else None
+    follow = bool(pre and pre[0].get("follow"))
     if pre:
         st0, ops = pre
     else:
@@ -95,9 +171,9 @@ def eval_history(arg):
         restarts = 0
         for step in range(len(ops) + 1):
             if step > 0:
-                project.apply_edit(st, ops[step - 1])
-            files = project.render(st)
-            proj.sync(files, project.unlisted_paths(st))
+                (follow_apply if follow else project.apply_edit)(st, ops[step - 1])
+            files = follow_render(st) if follow else project.render(st)
+            proj.sync(files, sorted(p_ for p_ in files if p_ != "r.py") if follow else project.unlisted_paths(st))
             targets = proj.targets()
             rec = {"step": step, "op": ops[step - 1] if step else None, "problem": None}
             acc["targets"], acc["triggered"] = 0, 0
@@ -307,6 +383,7 @@ def run(run: Run) -> None:
         "G2 edit histories in the '%s' profile on import graphs that start acyclic (definition-level edits: change/add/remove functions, classes incl. base-class changes and 'make the local class a subclass of the imported one', constants, aliases, generics, protocols, "
         "NamedTuple/TypedDict/dataclass/enum, overloads, decorators; body-only errors; remove/restyle imports incl. function-level and TYPE_CHECKING imports; syntax errors and semantic-analysis blockers switched on and removed again; type: ignore on/off; every third history also has star imports and edits that change only `__all__`, every third adds and deletes modules and adds import edges (never closing a cycle); a quarter of the uses of class-like definitions mention the class in an annotation only - 20 positions: TypeIs/TypeGuard/Callable/type[]/varargs/tuple/generic argument/TypeVar bound/NamedTuple, TypedDict, dataclass fields/Protocol member/overload item/property/alias/base-class argument/nested def/ClassVar/cast; "
         "every history ends with a directed tail: all 20 annotation-only positions are added for one class of another module, then up to two definitions used by other modules (that class first) disappear and come back unchanged, up to two local classes passed where an imported class is expected gain that class as a base and lose it again, up to two names used through a star import leave `__all__` and come back) "
+        "plus import-following histories (only the root file is passed, batches of edits between two checks: return types flip, chains of 1-3 new modules appear below an existing module, import edges are dropped); "
         "driven through an in-process dmypy Server (cmd_check after every step) and compared with a fresh `python -m mypy` process on the same files: status, per-file ordered diagnostics, multiset. "
         "Non-trivial: a step answered by a fine-grained update that re-processed targets in at least two modules (the edit propagated)." % profile
     )
@@ -323,6 +400,10 @@ def run(run: Run) -> None:
     # histories rotate through three profiles: plain, + star imports and __all__ edits, + files/import edges added and removed
     rot = ["structure", "structure-star", "structure-files"]
     work = [(s, n, 6 if q else 25, profile if profile != "structure" else rot[i % 3]) for i, (s, n) in enumerate(dict.fromkeys(seeds))]
+    # import-following histories (only r.py is passed to the daemon and to the oracle; batches of edits between checks)
+    for j in range(4 if q else 60):
+        fs = run.seed * 1000 + j
+        work.insert(1 + 3 * j if q else 1 + 5 * j, (fs, 0, 6 if q else 14, "follow-chain", follow_history(fs, 6 if q else 14)))
     k = 0
     for res in pmap(eval_history, work, recycle=2):
         judge(run, res)
